@@ -1,12 +1,15 @@
 package simzcn
 
 import (
+	"bytes"
 	"fmt"
 	"sort"
 	"strings"
 	"time"
 
 	"0chain.net/chaincore/block"
+	"0chain.net/smartcontract/stakepool"
+	"0chain.net/smartcontract/stakepool/spenum"
 	"0chain.net/smartcontract/zcnsc"
 	"verifharness/sim"
 )
@@ -39,7 +42,11 @@ type DelegateView struct {
 
 // StakePoolView summarises an authorizer's stake pool.
 type StakePoolView struct {
-	Exists         bool
+	Exists bool
+	// Bare is set (by StoredStakePoolOf) when the node is stored in the encoding of stakepool.StakePool instead of
+	// zcnsc.StakePool's own (which wraps it in a one-field map). The shared lock / unlock code saves the embedded
+	// struct, i.e. bare; zcnsc's own getter decodes a bare node as an EMPTY pool.
+	Bare           bool
 	DelegateWallet string
 	ServiceCharge  float64
 	MaxDelegates   int
@@ -62,7 +69,8 @@ type AuthorizerView struct {
 	LastHealthCheck int64
 	Killed          bool // provider flags of the node
 	ShutDown        bool
-	Pool            StakePoolView // the stake pool outlives `delete-authorizer`
+	Pool            StakePoolView // as the contract's getter reads it; the stake pool outlives `delete-authorizer`
+	Stored          StakePoolView // as the bytes in state say (differs from Pool when Stored.Bare)
 }
 
 // BridgeView is a read of the bridge's state on a block.
@@ -98,12 +106,42 @@ func AuthorizerCount(s *sim.Sim, b *block.Block) (int, error) {
 	return zcnsc.VerifAuthorizerCount(ReadCtx(s, b))
 }
 
-// StakePoolOf reads the stake pool of an authorizer id.
+// StakePoolOf reads the stake pool of an authorizer id exactly as the contract's own getter
+// (getStakePool, used by mint, collect-rewards, delete-authorizer, update-authorizer-config) sees it.
 func StakePoolOf(s *sim.Sim, b *block.Block, authorizerID string) (StakePoolView, error) {
 	sp, ok, err := zcnsc.VerifStakePool(ReadCtx(s, b), authorizerID)
 	if err != nil || !ok {
 		return StakePoolView{}, err
 	}
+	return poolView(&sp.StakePool), nil
+}
+
+var wrappedPrefix = append([]byte{0x81, 0xa9}, []byte("StakePool")...)
+
+// StoredStakePoolOf decodes the stored stake pool node in whichever of the two encodings it is stored
+// (see StakePoolView.Bare): what the bytes in state say, as opposed to what the contract reads.
+func StoredStakePoolOf(s *sim.Sim, b *block.Block, authorizerID string) (StakePoolView, error) {
+	raw := sim.ViewOf(b).RawNode(stakepool.StakePoolKey(spenum.Authorizer, authorizerID))
+	if raw == nil {
+		return StakePoolView{}, nil
+	}
+	if bytes.HasPrefix(raw, wrappedPrefix) {
+		sp := zcnsc.NewStakePool()
+		if _, err := sp.UnmarshalMsg(raw); err != nil {
+			return StakePoolView{}, err
+		}
+		return poolView(&sp.StakePool), nil
+	}
+	sp := stakepool.NewStakePool()
+	if _, err := sp.UnmarshalMsg(raw); err != nil {
+		return StakePoolView{}, err
+	}
+	v := poolView(sp)
+	v.Bare = true
+	return v, nil
+}
+
+func poolView(sp *stakepool.StakePool) StakePoolView {
 	v := StakePoolView{Exists: true, DelegateWallet: sp.Settings.DelegateWallet, ServiceCharge: sp.Settings.ServiceChargeRatio,
 		MaxDelegates: sp.Settings.MaxNumDelegates, MinStake: uint64(sp.Settings.MinStake), Reward: uint64(sp.Reward),
 		Killed: sp.HasBeenKilled, Minter: int(sp.Minter), TotalRewards: uint64(sp.Reward)}
@@ -119,7 +157,7 @@ func StakePoolOf(s *sim.Sim, b *block.Block, authorizerID string) (StakePoolView
 		v.TotalStake += uint64(dp.Balance)
 		v.TotalRewards += uint64(dp.Reward)
 	}
-	return v, nil
+	return v
 }
 
 // AuthorizerOf reads one authorizer (node and stake pool) by id.
@@ -136,7 +174,10 @@ func AuthorizerOf(s *sim.Sim, b *block.Block, id string) (AuthorizerView, error)
 			v.Fee = uint64(n.Config.Fee)
 		}
 	}
-	v.Pool, err = StakePoolOf(s, b, id)
+	if v.Pool, err = StakePoolOf(s, b, id); err != nil {
+		return v, err
+	}
+	v.Stored, err = StoredStakePoolOf(s, b, id)
 	return v, err
 }
 
@@ -214,6 +255,10 @@ func (v *BridgeView) String() string {
 			short(a.ID), a.Registered, a.Fee, a.LastHealthCheck, a.Killed, a.Pool.Exists, short(a.Pool.DelegateWallet), a.Pool.ServiceCharge, a.Pool.MinStake, a.Pool.Reward, a.Pool.Killed, a.Pool.TotalStake)
 		for _, d := range a.Pool.Delegates {
 			fmt.Fprintf(&sb, "    delegate %s balance=%d reward=%d status=%s\n", short(d.DelegateID), d.Balance, d.Reward, d.Status)
+		}
+		if a.Stored.Bare {
+			fmt.Fprintf(&sb, "    STORED BARE (not readable by zcnsc): delegate_wallet=%s charge=%v min_stake=%d reward=%d stake=%d delegates=%d\n",
+				short(a.Stored.DelegateWallet), a.Stored.ServiceCharge, a.Stored.MinStake, a.Stored.Reward, a.Stored.TotalStake, len(a.Stored.Delegates))
 		}
 	}
 	return sb.String()
